@@ -776,6 +776,21 @@ func c16ThresholdsPositive(c *Ctx) {
 				}
 			}
 		}
+		if ex, ok := v.(*ssa.Extract); ok {
+			// a helper of the package that returns the thresholds: every value it returns at that position is positive
+			if call, isC := ex.Tuple.(*ssa.Call); isC {
+				if cal := call.Common().StaticCallee(); cal != nil && len(cal.Blocks) > 0 {
+					okAll, n := true, 0
+					for _, in := range instrsWhere(cal, isReturn) {
+						n++
+						if !positive(in.(*ssa.Return).Results[ex.Index], in.Block(), d+1) {
+							okAll = false
+						}
+					}
+					return okAll && n > 0
+				}
+			}
+		}
 		if phi, ok := v.(*ssa.Phi); ok {
 			for i, e := range phi.Edges {
 				if !positive(e, phi.Block().Preds[i], d+1) {
@@ -816,6 +831,58 @@ func c16ThresholdsPositive(c *Ctx) {
 				return
 			}
 			n++
+			// the configured value it derives from is the one of the same name (HealthyThreshold -> healthyThreshold)
+			srcs := map[string]bool{}
+			var collect func(v ssa.Value, d int)
+			collect = func(v ssa.Value, d int) {
+				if v == nil || d > 8 {
+					return
+				}
+				switch x := v.(type) {
+				case *ssa.Phi:
+					for _, e := range x.Edges {
+						collect(e, d+1)
+					}
+				case *ssa.Extract:
+					if call, isC := x.Tuple.(*ssa.Call); isC {
+						if cal := call.Common().StaticCallee(); cal != nil && len(cal.Blocks) > 0 {
+							for _, r := range instrsWhere(cal, isReturn) {
+								collect(r.(*ssa.Return).Results[x.Index], d+1)
+							}
+						}
+					}
+				case *ssa.Call:
+					if cal := x.Common().StaticCallee(); cal != nil && len(cal.Blocks) > 0 && cal.Signature.Results().Len() == 1 {
+						for _, r := range instrsWhere(cal, isReturn) {
+							collect(r.(*ssa.Return).Results[0], d+1)
+						}
+					}
+				case *ssa.Field:
+					if stt := derefStruct(x.X.Type()); stt != nil {
+						srcs[stt.Field(x.Field).Name()] = true
+					}
+				case *ssa.UnOp:
+					if _, fl, _, okf := fieldAddrInfo(x.X); okf {
+						srcs[fl] = true
+					} else if al, isAl := x.X.(*ssa.Alloc); isAl {
+						for _, r := range refs(al) {
+							if s2, isS := r.(*ssa.Store); isS && s2.Addr == ssa.Value(al) {
+								collect(s2.Val, d+1)
+							}
+						}
+					}
+				case *ssa.Convert:
+					collect(x.X, d+1)
+				}
+			}
+			collect(st.Val, 0)
+			want := strings.ToUpper(fld[:1]) + fld[1:]
+			var got []string
+			for sname := range srcs {
+				got = append(got, sname)
+			}
+			sort.Strings(got)
+			c.Check("C16.R3", funcKey(f)+":"+fld+"-source", st.Pos(), len(srcs) == 1 && srcs[want], "derived from the configured "+want, fmt.Sprintf("healthChecker.%s is derived from the configuration field(s) %v instead of %s: the two thresholds are mixed up, so with healthy_threshold != unhealthy_threshold a host is ejected and readmitted after the wrong number of consecutive results", fld, got, want))
 			c.Check("C16.R3", funcKey(f)+":"+fld+"-positive", st.Pos(), positive(st.Val, in.Block(), 0), "a positive constant, or non-zero on the edge it arrives by", "the "+fld+" of the health checker can be 0 (a configuration that omits it): the counter is incremented before it is compared with ==, so it never equals 0 and the host never changes state - it is marked neither unhealthy after failures nor healthy again after successes")
 		})
 	}
